@@ -381,6 +381,94 @@ theorem child_refund_exact (L : MemLaws M) (mem : μ) (child : Frame ι) (e : Op
   exact ⟨m', h1, h3⟩
 
 end
+/-! ### int64 faithfulness of the stored values -/
+
+section
+variable {μ ι : Type} (M : MemOps μ ι) (ctx : Context ι)
+
+/-- machine states reachable by small steps of the guarded machine -/
+inductive ReachG : Machine μ ι → Machine μ ι → Prop
+  | refl (m : Machine μ ι) : ReachG m m
+  | step {m0 m m' : Machine μ ι} : ReachG m0 m → badEvent M ctx m = false →
+      smallStep M ctx m = .inl m' → ReachG m0 m'
+
+theorem reach_inv_phi (L : MemLaws M) (m0 m : Machine μ ι) (h0 : Inv m0) (hr : ReachG M ctx m0 m) :
+    Inv m ∧ phiM M m ≤ phiM M m0 := by
+  induction hr with
+  | refl => exact ⟨h0, le_refl _⟩
+  | step _ hev hs ih =>
+    have := step_phi_nonincreasing M ctx L _ _ ih.1 hev hs
+    exact ⟨this.1, by omega⟩
+
+theorem sumPsi_mem_le (ps : List (Frame ι)) (h : ∀ p ∈ ps, ParentInv p) (p : Frame ι) (hp : p ∈ ps) :
+    parentPsi M p ≤ sumPsi M ps := by
+  induction ps with
+  | nil => simp at hp
+  | cons q qs ih =>
+    have hq := h q (by simp)
+    have hqn : 0 ≤ parentPsi M q := by
+      have := frameA_nonneg M q hq.1; have := hq.2; unfold parentPsi; omega
+    have hrest := sumPsi_nonneg M qs (fun x hx => h x (by simp [hx]))
+    rcases List.mem_cons.mp hp with rfl | hp
+    · simp only [sumPsi]; omega
+    · have := ih (fun x hx => h x (by simp [hx])) hp
+      simp only [sumPsi]; omega
+
+/-- every int64 the machine stores lies in `[-B, B]` where `B` bounds the potential -/
+def ValuesWithin (B : Int) (m : Machine μ ι) : Prop :=
+  (0 ≤ m.cur.runLimit ∧ m.cur.runLimit ≤ B ∧ stackCost M.len m.cur.data ≤ B ∧ stackCost M.len m.cur.alt ≤ B) ∧
+  ∀ p ∈ m.parents, 0 ≤ p.runLimit ∧ p.runLimit ≤ B ∧ -B ≤ p.deferred ∧ p.deferred ≤ 0 ∧
+    stackCost M.len p.data ≤ B ∧ stackCost M.len p.alt ≤ B
+
+theorem values_within_of_phi (m : Machine μ ι) (hinv : Inv m) (B : Int) (hB : phiM M m ≤ B) :
+    ValuesWithin M B m := by
+  obtain ⟨hc, hp⟩ := hinv
+  have hs := sumPsi_nonneg M m.parents hp
+  have h1 := stackCost_nonneg M m.cur.data
+  have h2 := stackCost_nonneg M m.cur.alt
+  have hA : frameA M m.cur ≤ B := by unfold phiM at hB; omega
+  refine ⟨⟨hc, by unfold frameA at hA; omega, by unfold frameA at hA; omega, by unfold frameA at hA; omega⟩, ?_⟩
+  intro p hpm
+  have hpi := hp p hpm
+  have hle := sumPsi_mem_le M m.parents hp p hpm
+  have hA0 := frameA_nonneg M m.cur hc
+  have hphi : phiM M m = frameA M m.cur + sumPsi M m.parents := rfl
+  have hpsi : parentPsi M p ≤ B := by omega
+  have h3 := stackCost_nonneg M p.data
+  have h4 := stackCost_nonneg M p.alt
+  have hd := hpi.2
+  have hr := hpi.1
+  have hpsi' : p.runLimit + stackCost M.len p.data + stackCost M.len p.alt - p.deferred ≤ B := hpsi
+  exact ⟨hr, by omega, by omega, by omega, by omega, by omega⟩
+
+/-- **int64 faithfulness (stored values).**  In every state the guarded machine reaches from a
+    state with potential ≤ `B`, every stored runLimit, pending deferredCost and stack cost lies in
+    `[-B, B]`.  With `B = gasLimit ≤ 2^63 − 1` (`Verify` starts with potential = limit,
+    `initPushes_spec`) no stored value leaves int64, so unbounded `Int` is the Go arithmetic
+    for them.  (Values that exist only inside one handler are sums of at most a handful of
+    such terms; that they too stay within int64 for limits up to the consensus maximum is
+    argued, not mechanised.) -/
+theorem int64_faithful (L : MemLaws M) (m0 m : Machine μ ι) (h0 : Inv m0) (hr : ReachG M ctx m0 m)
+    (B : Int) (hB : phiM M m0 ≤ B) : ValuesWithin M B m := by
+  have := reach_inv_phi M ctx L m0 m h0 hr
+  exact values_within_of_phi M m this.1 B (by omega)
+
+/-- the program counter of a state about to execute an instruction is below 2^31 -/
+theorem pc_lt_two31 (mem : μ) (cur : Frame ι) (inst : Inst)
+    (h : parseOpL (M.len cur.prog) (M.read mem cur.prog) cur.pc = .ok inst) : cur.pc < 2 ^ 31 := by
+  unfold parseOpL at h
+  simp only at h
+  split at h
+  · cases h
+  · rename_i hl
+    split at h
+    · cases h
+    · rename_i hpc
+      unfold maxInt32 at hl
+      omega
+
+end
+
 /-! ### the full statements, refuted on the code as it is (value model, concrete witnesses) -/
 
 def dummyCtx (code : Bytes) (args : List Bytes) : Context Bytes :=
